@@ -153,19 +153,13 @@ def domain(prog, ctx):
             continue
         X, C, V, dom = roles['x'], roles['cand'], roles['acc'], roles['domain']
         probs = []
-        okrej = False
-        for s in walk_stmts(fn.body):
-            if s['k'] == 'If' and s.get('else') is not None:
-                thn = [strip(e) for x in walk_stmts(s['then']) for e in stmt_exprs(x)]
-                zero = any(e.get('k') == 'Bin' and e['op'] == '=' and strip(e['lhs']).get('name') == V and strip_casts(e['rhs']).get('val') in ('0.0', '0') for e in thn)
-                if not zero:
-                    continue
-                ct = show(s['cond']).replace(' ', '')
-                comps = [C] if axes == 1 else [C + '.first', C + '.second']
-                want = []
-                for k, cc in enumerate(comps):
-                    want += ['%s<%s[%d]' % (cc, dom, 2 * k), '%s>%s[%d]' % (cc, dom, 2 * k + 1)]
-                okrej = all(w in ct for w in want) and ct.count('||') == len(want) - 1 and '&&' in ct
+        # rejection outside the domain, from the one-iteration summary of the chain loop: the acceptance probability is 0 exactly on
+        # bounded_domain && (candidate component below its lower or above its upper bound), as a boolean function of those tests
+        try:
+            okrej = outside_rejected(prog, fn, roles, axes)
+        except Undecided as ex_:
+            ctx.undecided(R, name + ':domain', fn, 'rejection step outside the understood fragment: %s' % ex_)
+            continue
         if not okrej:
             probs.append('candidates outside the domain are not given acceptance probability 0 on every side of the domain')
         starts = []
@@ -178,6 +172,111 @@ def domain(prog, ctx):
         if starts != want:
             probs.append('the chain does not start from a uniform draw inside the domain: %s' % starts)
         ctx.decide(R, name + ':domain', fn, not probs, 'starts inside a given domain and never accepts a candidate outside it', '; '.join(probs))
+
+
+def _bool_atoms(f, table):
+    """Replace every relational atom of boolean f by a propositional symbol (complementary relations share one symbol)."""
+    def key(r):
+        if isinstance(r, (sp.Lt, sp.Ge)):
+            return ('lt', r.lhs, r.rhs), isinstance(r, sp.Ge)
+        if isinstance(r, (sp.Gt, sp.Le)):
+            return ('lt', r.rhs, r.lhs), isinstance(r, sp.Le)
+        if isinstance(r, (sp.Eq, sp.Ne)):
+            a_, b_ = sorted([r.lhs, r.rhs], key=str)
+            return ('eq', a_, b_), isinstance(r, sp.Ne)
+        return None, False
+    rep = {}
+    for r in f.atoms(sp.core.relational.Relational):
+        k_, neg = key(r)
+        if k_ is None:
+            raise Undecided('relation %s' % r)
+        if k_ not in table:
+            table[k_] = Symbol('p%d' % len(table))
+        rep[r] = sp.Not(table[k_]) if neg else table[k_]
+    return f.xreplace(rep)
+
+
+def outside_rejected(prog, fn, roles, axes):
+    X, C, V, dom = roles['x'], roles['cand'], roles['acc'], roles['domain']
+    ids = {}
+    for n_ in all_exprs(fn, into_lambdas=False):
+        if n_.get('k') == 'Ref' and n_.get('rk') == 'local' and n_.get('name') in (C, V):
+            ids[n_['name']] = n_['id']
+    for d_ in local_decls(fn):
+        if d_['name'] in (C, V):
+            ids[d_['name']] = d_['id']
+    loops = [s_ for s_ in walk_stmts(fn.body) if s_['k'] in ('For', 'While') and
+             any(x_.get('k') == 'Ref' and x_.get('name') == V for y_ in walk_stmts(s_['body']) for e_ in stmt_exprs(y_) for x_ in walk_expr(e_))]
+    if len(loops) != 1 or len(ids) != 2:
+        raise Undecided('chain loop / role variables not identified')
+    sx = Symx(prog, fn)
+    sts = sx.states_at(fn, loops[0])
+    if not sts:
+        raise Undecided('no path reaches the chain loop')
+    # the flag that says whether a domain was given: a bool (parameter or local) read in the loop body
+    bids = {}
+    for y_ in walk_stmts(loops[0]['body']):
+        for e_ in stmt_exprs(y_):
+            for x_ in walk_expr(e_):
+                if x_.get('k') == 'Ref' and x_.get('ty') == 'bool' and x_.get('rk') in ('local', 'param') and x_.get('name') != V:
+                    bids[x_['id']] = x_
+    inner_decl = set(d_['id'] for y_ in walk_stmts(loops[0]['body']) if y_['k'] == 'Decl' for d_ in y_['decls'])
+    bids = {k_: v_ for k_, v_ in bids.items() if k_ not in inner_decl}
+    from sympy.logic.inference import satisfiable
+    D = Function(dom, real=True)
+    for st0 in sts:
+        entry, cond, live, done, n0 = sx.loop_step(loops[0], st0)
+        B = sp.true
+        for bid, bnode in bids.items():
+            if bid in entry:
+                raise Undecided('the domain flag is modified inside the chain loop')
+            bv = st0.env.get(bid, sx.symbol(bnode['name'], 'bool'))
+            B = sp.And(B, sx.as_bool(bv) if not isinstance(bv, bool) else (sp.true if bv else sp.false))
+        cases = []
+        for p_ in live:
+            v_ = p_.env.get(ids[V])
+            pc = sp.And(*p_.conds[n0:]) if len(p_.conds) > n0 else sp.true
+            if isinstance(v_, sp.Piecewise):
+                prev = sp.true
+                for val_, c_ in v_.args:
+                    cases.append((sp.And(pc, prev, c_) if c_ not in (True, sp.true) else sp.And(pc, prev), val_))
+                    if c_ not in (True, sp.true):
+                        prev = sp.And(prev, sp.Not(c_))
+            elif isinstance(v_, sp.Basic):
+                cases.append((pc, v_))
+            else:
+                raise Undecided('acceptance probability has no value on a path')
+        if not cases:
+            raise Undecided('no paths through the chain loop')
+        zero = sp.Or(*[c_ for c_, v_ in cases if v_ == 0]) if any(v_ == 0 for _, v_ in cases) else sp.false
+        if B == sp.false:
+            # no domain given: nothing may be rejected for lying outside
+            if zero != sp.false and satisfiable(_bool_atoms(zero, {})) is not False:
+                return False
+            continue
+        allrel = set()
+        for c_, v_ in cases:
+            allrel |= c_.atoms(sp.core.relational.Relational)
+        comp_of = {}
+        for r_ in allrel:
+            for side, other in ((r_.lhs, r_.rhs), (r_.rhs, r_.lhs)):
+                if isinstance(side, sp.core.function.AppliedUndef) and side.func == D and len(side.args) == 1 and side.args[0].is_Integer:
+                    comp_of.setdefault(int(side.args[0]) // 2, set()).add(other)
+        if sorted(comp_of) != list(range(axes)) or any(len(v_) != 1 for v_ in comp_of.values()):
+            return False
+        want = sp.false
+        for k_ in range(axes):
+            c_ = list(comp_of[k_])[0]
+            want = sp.Or(want, sp.Lt(c_, D(2 * k_)), sp.Gt(c_, D(2 * k_ + 1)))
+        want = sp.And(B, want)
+        table = {}
+        zf = _bool_atoms(zero, table)
+        wf = _bool_atoms(want, table)
+        # paths split further on tests made after the acceptance probability is set (the uniform draw, the thinning counter): those
+        # atoms cancel when the paths are joined, so the two formulas must be equivalent outright
+        if satisfiable(sp.Xor(zf, wf)) is not False:
+            return False
+    return True
 
 
 def metropolis_roles(prog, fn):
@@ -308,6 +407,31 @@ def counts(prog, ctx):
             if cl:
                 st2.env[cl[0]['id']] = i
             c = sx.as_bool(sx.sym(s['cond'], st2))
+            # every condition between the top of the loop body and the push_back counts (an enclosing test that skips the
+            # bookkeeping on some iterations changes the number of recorded points)
+            def stack_to(node, target, acc):
+                if node is target:
+                    return acc
+                if node.get('k') == 'If':
+                    for key_, neg_ in (('then', False), ('else', True)):
+                        if node.get(key_) is not None:
+                            r_ = stack_to(node[key_], target, acc + [(node, neg_)])
+                            if r_ is not None:
+                                return r_
+                    return None
+                from ..ir import stmt_children
+                for ch_ in stmt_children(node):
+                    r_ = stack_to(ch_, target, acc)
+                    if r_ is not None:
+                        return r_
+                return None
+            outer_ifs = stack_to(loops[0]['body'], s, []) or []
+            for if_, neg_ in outer_ifs:
+                try:
+                    oc = sx.as_bool(sx.sym(if_['cond'], st2))
+                except Undecided:
+                    oc = Symbol('cond@line%s' % if_.get('l'))
+                c = sp.And(c, sp.Not(oc) if neg_ else oc)
             want = sp.And(sp.Ge(i, burn), sp.Eq(sp.Mod(i, thinning), 0))
             if c != want and not (isinstance(c, sp.And) and set(c.args) == set(want.args)):
                 probs.append('a point is kept iff %s, expected i >= burn_in and i %% thinning == 0' % c)
